@@ -72,6 +72,7 @@ type Contract struct {
 	Results  []string // for extern: result names
 	Asserts  map[string]*Clause
 	Bounded  int
+	Function *Clause // `function <expr>`: the (single) result is exactly this expression of the arguments and the heap
 	AllocBound *Clause // every make([]T, n) reached from the function satisfies n <= AllocBound
 	Used     bool
 	Opaque   []string
@@ -396,7 +397,7 @@ var loopRe = regexp.MustCompile(`^loop\s+([0-9]+)\s*:\s*(invariant|decreases)\s+
 
 var clauseKeywords = map[string]bool{"func": true, "extern": true, "pred": true, "lemma": true, "axiom": true, "requires": true, "ensures": true,
 	"assigns": true, "pure": true, "wrapping": true, "trusted": true, "inline": true, "props": true, "loop": true, "let": true,
-	"induct": true, "uses": true, "bounded": true, "excluding": true, "global-inv": true, "binding": true, "except": true, "allocbound": true}
+	"induct": true, "uses": true, "bounded": true, "excluding": true, "global-inv": true, "binding": true, "except": true, "allocbound": true, "function": true}
 
 func parseContractFile(path string, pkgPath string) (*ContractFile, error) {
 	f, err := os.Open(path)
@@ -560,6 +561,14 @@ func parseContractFile(path string, pkgPath string) (*ContractFile, error) {
 					cur.Assigns = append(cur.Assigns, d)
 				}
 			}
+		case kw == "function":
+			c, err := mk(rest, rl.line)
+			if err != nil {
+				return nil, err
+			}
+			cur.Function = c
+			cur.Pure = true
+			cur.HasFrame = true
 		case kw == "allocbound":
 			c, err := mk(rest, rl.line)
 			if err != nil {
